@@ -151,6 +151,14 @@ def c11(run):
     run.oblige("go build -overlay of the harness from the working tree (clock mode)", ch is not None, err)
     if usable and lh and ch:
         seq_map_runs(run, lh, ch)
+    if run.tier != "quick":
+        # deeper tiers (and the escalated search of a quick run whose obligations broke): "no entry lost, duplicated
+        # or resurrected by a grow, a shrink or a Clear" with writers in flight while the table is copied
+        h = with_harness(run, "sched")
+        if usable and h:
+            sched_runs(run, h, ("map", "mapof"), "", ("NONLIN", "PREFILL", "SIZE"), quick=(60, 6))
+            sched_runs(run, h, ("map", "mapof"), "racers", ("NONLIN", "PREFILL", "SIZE", "FN"), quick=(30, 6))
+            sched_runs(run, h, ("map", "mapof"), "shrink", ("NONLIN", "PREFILL", "SIZE"), quick=(30, 8))
     return R.finish(run, GAPS.get("C11", []))
 
 
@@ -379,6 +387,8 @@ def c13(run):
         sched_runs(run, h, ("cache", "cacheof"), "reenter", tags, quick=(60, 6), lin=False)
         # stale shrink requests: the give-up branch of resize must still wake the waiters
         sched_runs(run, h, ALL_KINDS, "shrink", tags, quick=(60, 8), lin=False)
+        # cleanup passes whose callback starts another cleanup pass, overlapping passes
+        sched_runs(run, h, ("cache", "cacheof"), "sweeps", tags, quick=(40, 6), lin=False)
         trace_runs(run, h, ("map", "mapof"))
     return R.finish(run, GAPS.get("C13", []))
 
